@@ -23,3 +23,4 @@ import PysersicModel.Opt.MapDict
 import PysersicModel.Prob.MultiBand
 import PysersicModel.Render.CxOps
 import PysersicModel.Gen.Kernels
+import PysersicModel.Gen.Scene
